@@ -169,7 +169,8 @@ class FinalFeedback:
         # If we have suppressed correctness, then update that flag
         self.hide_correctness = self.suppressions.get('correct', self.suppressions.get('success', False))
         # As long as we are allowed, change the default message to the "correct" message
-        if (not self.hide_correctness and nothing_shown and
+        # (a triggered mistake that carried no message of its own still keeps the submission from being correct)
+        if (not self.hide_correctness and nothing_shown and self.correct and
                 self.label == self.DEFAULT_NO_FEEDBACK_LABEL and
                 self.category == Feedback.CATEGORIES.COMPLETE):
             # TODO: Promote to be its own atomic feedback function
